@@ -441,7 +441,12 @@ def gen_merge(rng, label=None, backup=None, mode=None):
         meta["targets"] = [out]
     elif mode == "overwrite-other":
         out = W + "target.yaml"
-        files[out] = "---\nwill: be replaced\n"
+        # (never read, only replaced: any content is a pre-image, a
+        # zero-byte placeholder included)
+        files[out] = rng.choice(["---\nwill: be replaced\n",
+                                 "---\nwill: be replaced\n", "", "---\n",
+                                 "# only a comment\n", "\n",
+                                 "not: [yaml\n"])
         argv += ["-w", out]
         meta["targets"] = [out]
     elif mode == "overwrite-new":
@@ -483,7 +488,13 @@ def gen_merge(rng, label=None, backup=None, mode=None):
         argv += ["-D", rng.choice(["auto", "yaml", "json"])]
     if rng.random() < 0.15:
         argv += ["-J", rng.choice(["0", "2"])]
-    if rng.random() < 0.15 and label != "unreadable-config":
+    # (refusals decided during argument validation are more likely to be
+    # combined with a perfectly good configuration file: one finding must
+    # not be forgotten because a later check passed)
+    if rng.random() < (0.5 if label in (
+            "output-exists", "backup-without-overwrite",
+            "output-dir-missing", "two-dashes") else 0.15) \
+            and label != "unreadable-config":
         files[W + "merge.ini"] = "[defaults]\narrays = unique\n" \
             "[rules]\n/a = left\n"
         argv += ["-c", W + "merge.ini"]
